@@ -769,8 +769,8 @@ class C06(Check):
 
     def floors(self, tier):
         return {"A:aniso-XY": 0.15, "A:free-explicit": 0.2, "A:skin<0": 0.1, "part:B": 0.15,
-                "B:nontrivial(reenter+targeted-wpimult,>=3conns)": 0.01, "B:compdat-reentered": 0.08,
-                "B:wpimult-targeted": 0.08, "B:wpimult-well": 0.05, "B:welopen": 0.05, "B:complump": 0.05}
+                "B:nontrivial(reenter+targeted-wpimult,>=3conns)": 0.01, "B:compdat-reentered": 0.04,
+                "B:wpimult-targeted": 0.04, "B:wpimult-well": 0.02, "B:welopen": 0.02, "B:complump": 0.02}
 
     def sample_view(self, case):
         if case["part"] == "A":
